@@ -374,7 +374,10 @@ def rules_all(ctx, db):
     from .. import forward
     rules(ctx, db)
     rule_arith(ctx, db)
-    forward.rule_io_forwarders(ctx, db, "R4", ("compio_io::",), 50)
+    if any(f.id.startswith("compio_io::") for f in db.fns.values()):
+        forward.rule_io_forwarders(ctx, db, "R4", ("compio_io::",), 50)
+    else:
+        ctx.rule("R4", "FORWARD", "an I/O-trait method that only forwards calls the method of the same name and hands on every parameter")
     rule_cursors(ctx, db)
 
 
